@@ -254,7 +254,7 @@ def run_literal_source(prog, tier, repo):
                         if sd[1] == 'term':
                             nm = (callee(sd[2])[1] or '')
                             short = nm.split('::')[-1]
-                            if short in ('unwrap_or', 'unwrap', 'unwrap_or_default', 'expect') and sd[2][3]:
+                            if short in ('unwrap_or', 'unwrap', 'unwrap_or_default', 'expect', 'ok', 'map_err', 'or', 'unwrap_or_else') and sd[2][3]:
                                 r, _p = operand_root(b, sd[2][3][0])
                                 if r is None:
                                     break
